@@ -40,9 +40,12 @@ COLLISIONS = [
 ]
 VALUE_COLLISIONS = COLLISIONS + [("1", "_1"), ("", " "), ("a b", "a_b"), ("1a", "a1"), ("-", "_"), ("a", "a "), ("1", "1.0"), ("A", "a")]
 
-SLOTS = ["root", "e1", "e2", "e3", "a1", "a2", "t1", "s1", "v1", "v2"]
+SLOTS = ["root", "e1", "e2", "e3", "a1", "a2", "t1", "s1", "v1", "v2", "v3"]
 SAME_SCOPE = [("e1", "e2"), ("a1", "a2"), ("t1", "s1"), ("v1", "v2"), ("e1", "a1"), ("root", "t1"), ("e2", "t1"), ("e3", "e1")]
-DEFAULT_NAMES = {"root": "root", "e1": "first", "e2": "second", "e3": "third", "a1": "attr", "a2": "other", "t1": "ItemType", "s1": "KindType", "v1": "alpha", "v2": "beta"}
+# three names of one scope that all collide after normalisation (renaming by index has to look at what it already handed out)
+SAME_SCOPE3 = [("e1", "e2", "a1"), ("e1", "a1", "a2"), ("v1", "v2", "v3"), ("root", "t1", "s1")]
+COLLISIONS3 = [("e_mail", "e-mail", "eMail"), ("kg", "KG", "Kg"), ("a_b", "a-b", "a.b"), ("fooBar", "foo_bar", "FooBar"), ("value", "Value", "VALUE"), ("x1", "x_1", "x-1")]
+DEFAULT_NAMES = {"root": "root", "e1": "first", "e2": "second", "e3": "third", "a1": "attr", "a2": "other", "t1": "ItemType", "s1": "KindType", "v1": "alpha", "v2": "beta", "v3": "gamma"}
 
 
 def xsd_skeleton(n: dict, tns: str | None = "urn:t") -> str:
@@ -72,16 +75,55 @@ def xsd_skeleton(n: dict, tns: str | None = "urn:t") -> str:
   </xs:complexType>
   <xs:simpleType name="{e(n["s1"])}">
     <xs:restriction base="xs:string">
-      <xs:enumeration value="{e(n["v1"])}"/><xs:enumeration value="{e(n["v2"])}"/><xs:enumeration value="gamma"/>
+      <xs:enumeration value="{e(n["v1"])}"/><xs:enumeration value="{e(n["v2"])}"/><xs:enumeration value="{e(n["v3"])}"/>
     </xs:restriction>
   </xs:simpleType>
 </xs:schema>
 '''
 
 
+def xsd_two_namespaces(n: dict) -> dict:
+    """The same type names in two namespaces, both used by one root: what the generated modules import from each other must
+    still be the right classes under every structure style."""
+    e = I.esc_attr
+    main = f'''<?xml version="1.0" encoding="UTF-8"?>
+<xs:schema xmlns:xs="http://www.w3.org/2001/XMLSchema" targetNamespace="urn:t" xmlns:t="urn:t" xmlns:o="urn:o" elementFormDefault="qualified">
+  <xs:import namespace="urn:o" schemaLocation="other.xsd"/>
+  <xs:element name="{e(n["root"])}">
+    <xs:complexType>
+      <xs:sequence>
+        <xs:element name="{e(n["e1"])}" type="t:{e(n["t1"])}"/>
+        <xs:element name="{e(n["e2"])}" type="o:{e(n["t1"])}"/>
+        <xs:element name="{e(n["e3"])}" type="o:{e(n["s1"])}" minOccurs="0"/>
+      </xs:sequence>
+      <xs:attribute name="{e(n["a1"])}" type="t:{e(n["s1"])}"/>
+    </xs:complexType>
+  </xs:element>
+  <xs:complexType name="{e(n["t1"])}">
+    <xs:sequence><xs:element name="{e(n["e1"])}" type="xs:string"/><xs:element name="{e(n["e2"])}" type="o:{e(n["t1"])}" minOccurs="0"/></xs:sequence>
+  </xs:complexType>
+  <xs:simpleType name="{e(n["s1"])}">
+    <xs:restriction base="xs:string"><xs:enumeration value="{e(n["v1"])}"/><xs:enumeration value="{e(n["v2"])}"/></xs:restriction>
+  </xs:simpleType>
+</xs:schema>
+'''
+    other = f'''<?xml version="1.0" encoding="UTF-8"?>
+<xs:schema xmlns:xs="http://www.w3.org/2001/XMLSchema" targetNamespace="urn:o" xmlns:o="urn:o" elementFormDefault="qualified">
+  <xs:complexType name="{e(n["t1"])}">
+    <xs:sequence><xs:element name="{e(n["e3"])}" type="xs:int"/></xs:sequence>
+    <xs:attribute name="{e(n["a2"])}" type="o:{e(n["s1"])}"/>
+  </xs:complexType>
+  <xs:simpleType name="{e(n["s1"])}">
+    <xs:restriction base="xs:string"><xs:enumeration value="{e(n["v2"])}"/><xs:enumeration value="{e(n["v3"])}"/></xs:restriction>
+  </xs:simpleType>
+</xs:schema>
+'''
+    return {"main.xsd": main, "other.xsd": other}
+
+
 def dtd_skeleton(n: dict) -> str:
     return f'''<!ELEMENT {n["root"]} ({n["e1"]}+, {n["e2"]}?)>
-<!ATTLIST {n["root"]} {n["a1"]} ({n["v1"]}|{n["v2"]}|gamma) #IMPLIED {n["a2"]} CDATA "d">
+<!ATTLIST {n["root"]} {n["a1"]} ({n["v1"]}|{n["v2"]}|{n["v3"]}) #IMPLIED {n["a2"]} CDATA "d">
 <!ELEMENT {n["e1"]} (#PCDATA)>
 <!ATTLIST {n["e1"]} {n["a1"]} CDATA #IMPLIED>
 <!ELEMENT {n["e2"]} ({n["e3"]}*)>
@@ -181,6 +223,17 @@ def check_generated(g: CG.Generated, case: dict, label: str):
 
 
 def find_duplicates(tree: ast.AST):
+    imported = {}
+    for node in tree.body:
+        # only imports from sibling generated modules: those exist because a field refers to the sibling's class, so a class
+        # of the same name in this module captures the reference (a library import that a class shadows is not used for it)
+        if isinstance(node, ast.ImportFrom) and (node.level > 0 or (node.module or "").split(".")[0] == "pkgx"):
+            for a in node.names:
+                imported[a.asname or a.name] = node.module
+    for node in tree.body:
+        if isinstance(node, ast.ClassDef) and node.name in imported:
+            return ("imported-name-redefined", f"class {node.name} is imported from {imported[node.name]} and defined again in the same module")
+
     def scope(body, where):
         names = {}
         for node in body:
@@ -220,7 +273,7 @@ def run_generation(sources, uris, opts, conv):
 def pick_names(ch: Chooser, alphabet_names, alphabet_values):
     """All singles: one slot gets a hostile name; all pairs: two slots of one scope get a colliding pair."""
     n = dict(DEFAULT_NAMES)
-    mode = ch.pick(["none", "single", "pair"], "names", free=True)
+    mode = ch.pick(["none", "single", "pair", "triple"], "names", free=True)
     desc = "default names"
     if mode == "single":
         slot = ch.pick(SLOTS, "slot", free=True)
@@ -234,30 +287,51 @@ def pick_names(ch: Chooser, alphabet_names, alphabet_values):
         a, b = coll[ch.choose(len(coll), "collision", free=True)]
         n[s1], n[s2] = a, b
         desc = f"{s1}={a!r}, {s2}={b!r}"
+    elif mode == "triple":
+        slots = ch.pick(SAME_SCOPE3, "scope3", free=True)
+        names = COLLISIONS3[ch.choose(len(COLLISIONS3), "collision3", free=True)]
+        rot = ch.choose(3, "rotation", free=True)
+        names = names[rot:] + names[:rot]
+        for sl, nm in zip(slots, names):
+            n[sl] = nm
+        desc = ", ".join(f"{sl}={nm!r}" for sl, nm in zip(slots, names))
     return n, desc
 
 
 @harness("c07.xsd")
 def h_xsd(ch: Chooser, kind: str):
     n, desc = pick_names(ch, HOSTILE_NCNAMES, HOSTILE_VALUES)
-    oi = ch.choose(len(OPTIONS), "options")
+    if kind == "xsd-two-namespaces":
+        # what this skeleton is about is how modules import from each other: the structure style is a free dimension here
+        oi = ch.choose(5, "structure-style", free=True)
+    else:
+        oi = ch.choose(len(OPTIONS), "options")
     oname, opts, conv = OPTIONS[oi]
     if kind == "xsd":
         sources = {"main.xsd": xsd_skeleton(n)}
+    elif kind == "xsd-two-namespaces":
+        sources = xsd_two_namespaces(n)
     elif kind == "xsd-no-namespace":
         sources = {"main.xsd": xsd_skeleton(n, None)}
     else:
         if any(not is_dtd_name(v) for k, v in n.items() if k not in ("t1", "s1")):
             return {"skip": True, "reason": "not a DTD name"}
         sources = {"main.dtd": dtd_skeleton(n)}
-    src = next(iter(sources.values()))
+    src = "\n".join(sources.values())
     case = {"kind": kind, "names": desc, "options": oname, "source": src}
     if kind.startswith("xsd"):
         from lxml import etree
+        import os, shutil, tempfile
+        wd = tempfile.mkdtemp(prefix="vmc_c07_")
         try:
-            etree.XMLSchema(etree.fromstring(src.encode("utf-8")))
+            for fn, text in sources.items():
+                with open(os.path.join(wd, fn), "w", encoding="utf-8") as fh:
+                    fh.write(text)
+            etree.XMLSchema(etree.parse(os.path.join(wd, "main.xsd")))
         except (etree.XMLSchemaParseError, etree.XMLSyntaxError):
             return {"skip": True, "reason": "names do not form a valid schema (duplicate declarations etc.)"}
+        finally:
+            shutil.rmtree(wd, ignore_errors=True)
     else:
         from lxml import etree
         import io
@@ -369,6 +443,7 @@ def run(tier: str, seed: int) -> int:
     opt_bound = 1 if th else 0
     for kind in ("xsd", "xsd-no-namespace", "dtd"):
         tasks.extend(split_deep(("c07.xsd", dict(kind=kind), opt_bound, ()), short=4, rounds=3))
+    tasks.extend(split_deep(("c07.xsd", dict(kind="xsd-two-namespaces"), 0, ()), short=4, rounds=3))
     # every option set on the default names (and on a fixed hostile assignment) in both tiers
     tasks.append(("c07.xsd", dict(kind="xsd"), 1, (0,)))
     tasks.extend(split_deep(("c07.samples.xml", dict(max_elems=3 if th else 2), 2 if th else 1, ()), short=3, rounds=2))
@@ -378,10 +453,10 @@ def run(tier: str, seed: int) -> int:
     return finish(
         PROP, tier, seed, "exploration", stats, t0,
         rule=(f"XSD skeleton (with / without target namespace) and DTD skeleton with {len(SLOTS)} name slots (root, elements, attributes, complex and simple type names, enumeration values): every "
-              f"single slot x {len(HOSTILE_NCNAMES)} hostile names ({len(HOSTILE_VALUES)} for enumeration values), every same-scope slot pair x {len(COLLISIONS)}+ colliding name pairs"
+              f"single slot x {len(HOSTILE_NCNAMES)} hostile names ({len(HOSTILE_VALUES)} for enumeration values), every same-scope slot pair x {len(COLLISIONS)}+ colliding name pairs, {len(SAME_SCOPE3)} same-scope slot triples x {len(COLLISIONS3)} three-way collisions x 3 rotations"
               f"{', each x ' + str(len(OPTIONS)) + ' option sets' if th else ''}; every option set on the default names; irregular XML samples (all G-tree documents within the bound, one or two per set) and JSON "
               f"samples (10 shapes x hostile keys) x option sets. Oracle: success or CodegenError within {WATCHDOG_S}s; every module compiles and imports; every class builds binding metadata and "
-              "is instantiable; no duplicate field / class names in any scope."),
+              "is instantiable; no duplicate field / class names in any scope; no module defines a class under a name it also imports."),
         assumptions=["stand-ins for jinja2 / toposort / click / ruff (ruff is a no-op: nothing about formatting is checked)", f"termination is a {WATCHDOG_S}s watchdog, not a proof",
                      "name assignments that make the source itself invalid (libxml2 rejects the schema / DTD) are skipped"],
         bound={"option_deviations_on_hostile_names": opt_bound, "slots": SLOTS},
